@@ -11,9 +11,15 @@ RULE = ('as C01 (G-sel + design-variable nodes x both encoders x declared space)
         'reported values), and two different corrected vectors must never denote one architecture; non-trivial = at least 2 '
         'valid rows; distinct = graph+encoder')
 TRUSTED = ['the encoding description E is read from GraphProcessor.all_des_vars']
-PARTIAL = ['connection variables are covered by C10/C11 machinery']
-batches = _proc.make_batches('C03', ['complete', 'fast'], 1200, 6000, cons_prob=0.25)
-run_case = _proc.make_run_case(CLAUSES)
+RULE += ('; second batch: graphs with 1-2 connection choices through GraphProcessor: every enumerated row decodes to itself, a '
+         'second decode of a row on the same processor gives the same architecture (node set + connection edges), and for 25 '
+         'random vectors per encoder the corrected vector is a fixed point with the same architecture')
+PARTIAL = ['for connection variables "describes the instance" is checked through the fixed point and the architecture, not by '
+           'reading the matrix back from the variables']
+CONN_CLAUSES = ('enumerated-row-does-not-decode-to-itself', 'corrected-vector-not-a-fixed-point', 'second-decode-gives-another-architecture',
+                'two-rows-one-architecture')
+batches = _proc.add_conn_batch(_proc.make_batches('C03', ['complete', 'fast'], 1200, 6000, cons_prob=0.25), 'C03')
+run_case = _proc.wrap_run_case(_proc.make_run_case(CLAUSES), CONN_CLAUSES)
 compare = _proc.compare
-shrink_candidates = _proc.shrink_candidates
-match_known = dsgcase.match_known
+shrink_candidates = _proc.wrap_shrink(_proc.shrink_candidates)
+match_known = _proc.wrap_match_known(dsgcase.match_known)
